@@ -21,39 +21,46 @@ _COMMON_NOTE = ("Sequential consistency at the granularity of the hook sites (we
                 "queue inside the model is the proved bounded SPSC model; libfmt/PatternFormatter are bypassed by a '%(message)' pattern "
                 "(C12/C04 cover them); the unbounded queue variants are exercised by C02/C09, the end-to-end harness runs the bounded ones.")
 
+_SCOPE = ("Theorems quantify over every `ops : List Op` of the backend model: frontend calls of any number of threads (log calls of every kind, "
+          "flush_log, logger create/remove/remove-blocking, level changes, dropped sink references, thread start/exit, clock ticks, stalls after "
+          "the clock read), backend polls carrying arbitrary injected frontend operations at hook sites 1-9 (between the clock read and the cache "
+          "refresh, before each queue, between records, between events, before the idle branch, inside the clock read, inside the error notifier, "
+          "inside a sink destructor run by the logger clean-up) and the exit drain; every configuration (grace, soft/hard limits, queue capacity, "
+          "blocking or dropping, sink levels/filters/fault schedules). ")
+
 MANIFEST = {
     "C03": dict(
-        technique="Lean 4 proof: conservation invariant over all schedules of frontend/backend micro-steps (issued = delivered ++ transit ++ queue per thread, exactly-once per accepting sink); deterministic differential correspondence of the real Frontend/BackendWorker with the model under a scheduler harness with hook-site injections",
-        text="Machine-checked invariant of the backend model for every schedule: per thread, the accepted statements are exactly delivered ++ transit buffer ++ queue in issue order; every delivered statement was handed exactly once to every sink of its logger that accepts it; a context is dropped only when invalid with empty queue and buffer. Tied to the real code by running the real Logger/macros/ThreadContextManager/BackendWorker (ManualBackendWorker) under a deterministic scheduler (virtual clock, parked frontend calls, operations injected at the QUILL_VERIF hook sites inside a poll) against the compiled Lean model — every observation line compared — and by an exactly-once / per-thread-order oracle on the recorded sink calls.",
-        note=_COMMON_NOTE, ref="§5 C03, §4.3"),
+        technique="Lean 4 proof: conservation and dispatch invariants of the backend model over all schedules (per context accepted = popped ++ transit buffer ++ queue, byte-exact coherence with the proved bounded SPSC queue, every pop emits exactly the dispatch block, ids unique, at most once per sink over the whole log; transit ring buffer refines a FIFO); deterministic differential correspondence of the real Frontend/BackendWorker with the compiled model under a scheduler harness with hook-site injections + exactly-once/order/delivery oracles",
+        text=_SCOPE + "Proved for every schedule: C03_conservation (accepted = popped ++ buf ++ qStmts per context, in issue order), C03_queue_coherent (the pending statements are exactly the unread records of the queue, byte counts included), C03_empty_test_sound, C03_removed_drained (a context is dropped only invalid, empty, with accepted = popped), C03_dispatch_exact (one write per sink of the logger whose level and filters accept, in sink order, cut at the first throwing sink), C03_pop_emits_dispatch, C03_ids_unique, C03_at_most_once (number of ordinary writes of an id at a sink over the whole log <= multiplicity of the sink in its logger's list), C03_writes_only_of_popped; the TransitEventBuffer (growth from the reader position, slot reuse, shrink) refines a FIFO (C03_transit_refines, own correspondence stream on the real class). Exactly once over the WHOLE event log: C03_nothing_written_before_pop (a statement still queued or buffered has no write anywhere), C03_pop_writes_exactly (the pop leaves exactly one write per occurrence of each sink that accepts it at dispatch time; with a write fault only the sinks before the faulting one), C03_writes_frozen_after_pop (afterwards the count never changes, through every schedule), C03_exactly_once (their composition across one processing call and any later schedule; the acceptance decision is the one of the state in which that call starts). Tie: real Logger/macros/ThreadContextManager/BackendWorker (ManualBackendWorker) under a deterministic scheduler (virtual clock, parked frontend calls, injected operations), every observation line recomputed by the compiled Lean model; oracles on the recorded sink calls (exactly once, per-thread order, accepted => delivered after the drain) also on the two unbounded-queue builds.",
+        note=_COMMON_NOTE, ref="§5 C03, §4.3, §9.1"),
     "C05": dict(
-        technique="Lean 4 proof: ordering invariant (everything not yet emitted is >= the emitted front) over all schedules under the grace-period premise; extraction of the sample-then-refresh order; differential correspondence incl. registration inside the sampling window",
-        text="Machine-checked: for every schedule in which each enqueue happens within the grace period of its timestamp, the backend model emits non-backtrace statements in non-decreasing timestamp order; the proof needs the context cache to be refreshed after ts_now is sampled (extracted from _populate_transit_events_from_frontend_queues; the pinned order is proved wrong by a witness, finding F5, repaired). Tied to the code by the H2 harness (threads registering at hook site 1, stalls after the clock read at site 6, hard-limit truncation) vs the Lean model and a timestamp-order oracle applied when the premise holds.",
-        note=_COMMON_NOTE + " rdtsc→epoch conversion is not modelled (System clock in the harness).", ref="§5 C05, Appendix A.2"),
+        technique="Lean 4 proof: ordering invariant over all schedules under the property's own grace-period premise (pop order sorted by timestamp); extraction of the sample-then-refresh order with a negative witness for the pinned order (F5); differential correspondence incl. registration inside the sampling window and inside the clock read",
+        text=_SCOPE + "Proved: C05_pop_order / C05_statement_order — if every accepted record satisfies enqueue time <= timestamp + grace (the property's premise, checked on the final state), the sequence of popped statements (hence of writes at every sink) is sorted by timestamp, for grace != 0 and the extracted fact that the context cache is refreshed after ts_now is sampled; C05_order_continues from any state satisfying the invariant. Negative witnesses by `decide`: the pinned order (refresh before the clock read, F5, repaired) pops 1000, 1101, 1100 under the premise; a call stalled longer than the grace period breaks premise and order. Obligations: stop on a future timestamp, do-while read loop, strict minimum, both batch guards (extracted).",
+        note=_COMMON_NOTE + " rdtsc→epoch conversion is not modelled (System clock in the harness).", ref="§5 C05, §9.1, Appendix A.2"),
     "C06": dict(
-        technique="Lean 4 proof: flag-after-flush invariant on the backend model (flag raised only after the Flush event was popped, all earlier statements of the caller written and every active sink flushed); differential correspondence + flush oracle",
-        text="Machine-checked on the backend model: a flush flag is raised only after its Flush event was processed, at which point every statement the caller enqueued earlier has been written to its accepting sinks and every active sink has been flushed since; the flush request is retried, never dropped or counted. Tied to the code by H2 scripts with flush_log callers parked in the interposed sleep, resumed between polls, and an oracle reading the recorded writes/flushes at the moment flush_log returns (other threads' statements under the ordering premise).",
-        note=_COMMON_NOTE + " Sinks of loggers already marked invalid are not flushed by the Flush event (premise: logger not removed).", ref="§5 C06"),
+        technique="Lean 4 proof: flag-after-flush invariants on the backend model for every schedule (flag only after the Flush event was popped, own statements popped first, every sink of every logger not yet erased flushed before the flag, other threads' strictly older statements popped under C05's hypotheses, request never dropped or counted); witnesses for F6 and F12; differential correspondence + oracle at the moment flush_log returns",
+        text=_SCOPE + "Proved: C06_flag_only_after_pop, C06_flag_numbers_unique (a caller is released only by its own Flush event), C06_own_statements_first (everything the caller's thread accepted earlier was popped — hence dispatched, C03 — before its Flush statement), C06_flush_step (processing the Flush event emits flushed / fthrow+notification for every active sink and only then raises the flag; a throwing flush blocks neither the other sinks nor the flag), C06_other_threads (grace != 0, C05 premise: every record of any thread with a strictly smaller timestamp has been popped when the flag is raised; equal clock values are a tie and not claimed), C06_flush_never_dropped (dropping and blocking queues: a refused request parks for a retry with nothing counted), C06_release. Findings proved as witnesses: F6 (pinned refresh order) and F12 (sinks of a logger marked for removal were skipped by the flush: C06_removed_logger_sink_not_flushed_unrepaired / _sink_flushed for the repaired, extracted flag value). Progress ('flush_log returns as long as the backend keeps running'): C06_flush_log_returns_partial / C06_flush_log_returns_after_grace_partial — from any reachable state of any configuration with the backend running and a COMMITTED Flush request, once every pending record is past its grace period (or after a clock tick >= grace), every continuation of quiet polls and ticks with at least as many polls as there are pending records ends with the flag raised and the caller's resume answers done (single-event and batch mode, every soft/hard limit; each quiet poll pops at least one event while anything is pending). PARTIAL: a caller still parked on the retry of a refused Flush request is not covered by that theorem (it needs the end-to-end form of C09: a drained queue grants the retry).",
+        note=_COMMON_NOTE, ref="§5 C06, §7 F6 F12, §9.1"),
     "C08": dict(
-        technique="Lean 4 proof: accounting invariant (attempted = delivered-or-pending + discarded; reported + counters = discarded log statements) on the backend model; differential correspondence on the BoundedDropping build + drop-count oracle",
-        text="Machine-checked on the backend model with a dropping queue: a log call returns false iff the record was not enqueued iff it never reaches a sink; reported drop counts plus the outstanding per-thread counters always equal the number of discarded ordinary statements, control requests are retried and never counted. Tied to the code by the H2 harness compiled with BoundedDropping (tiny queue) vs the model and an oracle relating return values, sink records and notifier counts (this found F17: counts lost when a Flush event cleans up an exited thread, repaired).",
-        note=_COMMON_NOTE, ref="§5 C08, §7 F17"),
+        technique="Lean 4 proof: accounting invariants on the backend model for every schedule (discarded + blocked = reported + pending counters; ret=1 iff appended, ret=0 iff counted; control requests retried, never counted; a reclaimed context has a zero counter under the extracted F24 flag); witnesses for F17/F24 in all flag combinations; differential correspondence on the BoundedDropping build + drop-count oracle",
+        text=_SCOPE + "Proved: C08_accounting (sum of discarded statements and blocking episodes = reported through the notifier + sum of the per-context counters, over all contexts ever created), C08_dropped_equals_reported_plus_pending (dropping queue), C08_log_call_outcome (a log call returns true iff the statement is appended to the accepted history and no counter moves, false iff nothing is appended and the counter and the discarded count grow by one), C08_control_request_retried / _retry_reattempts / _control_kinds (flush, backtrace init/flush, removal requests are parked and re-attempted, never counted), C08_removed_context_reported (removed => counter 0 in every reachable state, under the extracted flag of the F24 repair), delivered statements intact and in order via C03. Witnesses by `decide`: the F17 and F24 schedules lose a count for the unrepaired flag values and report it for the repaired ones. Never both: C08_dropped_call_id_unplaced, C08_unplaced_forever, C08_discarded_never_written (the id of a refused call is in no accepted history or parked call, stays so through every schedule, and is never written at any sink). Quiescence: C08_cache_covers_registry, C08_idle_pass_drains_counters, C08_quiescent_all_reported (from a freshly started system, after ANY schedule followed by one idle poll with nothing injected, every counter of every context ever created is 0 and the discarded statements equal the reported ones). The counter protocol itself (fetch_add against load+exchange) is one atomic step in this model; its structure is an extraction obligation (counterResetAtomic) and, when present, a separate interleaving model (Reg bundle).",
+        note=_COMMON_NOTE, ref="§5 C08, §7 F17 F24, §9.1"),
     "C10": dict(
-        technique="Lean 4 proof: fault-injection refinement (arbitrary schedule of throwing sink writes/flushes) preserving the C03 invariant for non-faulted deliveries; differential correspondence with throwing recording sinks",
-        text="Machine-checked on the backend model with an arbitrary assignment of throwing write_log / flush_sink calls: a write fault loses at most that statement on that sink and the sinks after it, a flush fault loses nothing, every other statement is still delivered exactly once and in order, every poll still pops the event it processed and flush flags are still raised. Tied to the code by H2 scripts with recording sinks that throw on chosen calls, compared line by line with the model, and the exactly-once oracle restricted to non-faulted deliveries. (Formatter exceptions: finding F4, repaired; exercised by C04's harness.)",
-        note=_COMMON_NOTE, ref="§5 C10, §7 F4"),
+        technique="Lean 4 proof: fault locality on the backend model with arbitrary write_log / flush_sink fault schedules for every schedule (conservation and at-most-once survive, the event is popped on every path, a write fault splits the sink list at the first accepting thrower and touches nothing else, a flush visits every sink and raises its flag); differential correspondence with throwing recording sinks",
+        text=_SCOPE + "Proved with arbitrary per-sink lists of throwing write and flush calls: C10_conservation_under_faults, C10_pop_on_every_path (the processed event leaves the transit buffer whether or not an exception escapes, other contexts untouched), C10_process_makes_progress, C10_write_fault_local / C10_process_event_local (only the sinks after the first throwing accepting sink miss that one statement; queues, buffers, other statements, configuration untouched), C10_fault_schedule_constant, C10_at_most_once_under_faults, C10_flush_visits_every_sink, C10_flush_fault_loses_nothing, C10_flush_flag_raised, C10_backtrace_without_init. Formatter exceptions (std and non-std, finding F4, repaired) are an extraction obligation here (catch-all next to the std::exception handler) and are exercised on the real formatter by C04's harness; libfmt itself is not modelled.",
+        note=_COMMON_NOTE, ref="§5 C10, §7 F4, §9.1"),
     "C16": dict(
-        technique="Lean 4 proof: decision-logic theorems (enqueue iff level >= logger level; written to sink i iff level >= sink level and every filter accepts, independent of other sinks) + level table obligation; differential correspondence with per-sink recording and argument-evaluation counters; invariant over all schedules and stale relaxed loads of add_filter / set_log_level_filter against apply_all_filters under a release/acquire view semantics (the proved spinlock model inside), tied by structural extraction and an N-thread atomic-shim harness with real lock contention",
-        text="Machine-checked decision logic: shouldLog / sinkAccepts characterise exactly when a statement is enqueued (and its arguments evaluated) and when each sink receives it, independently of the logger's other sinks, with the statement's own (static or dynamic) level. Tied to the code by the H2 harness using the real LOG_* macros (static levels) and the dynamic-level call with side-effect counters in the arguments, sink level filters and filters, level changes interleaved, against the model, plus an oracle on every recorded sink call. Concurrency of Sink::add_filter with the backend's apply_all_filters (relaxed _new_filter flag, spinlock, _local_filters copy): machine-checked for every number of threads, schedule and stale-load choice that the copy is race-free and that every evaluation consults a filter list containing every filter whose add_filter returned happens-before the evaluation and only filters whose add_filter had begun (negative witnesses: try_lock-and-evaluate-anyway leaks, relaxed lock races, and the run showing why the happens-before premise is needed); tied to the code by extraction of the two functions' structure and by running the real Sink compiled against an N-thread atomic shim under thousands of generated schedules (every atomic access a scheduling point) against the model and a DONE/STARTED oracle.",
-        note=_COMMON_NOTE + " Override pattern formatters per sink are covered by C12. Filter concurrency: DONE is defined by happens-before (queue publication / lock), not wall-clock, because _new_filter is relaxed; filters are removed never (the API has no remove_filter).", ref="§5 C16"),
+        technique="Lean 4 proof: decision-logic and dispatch theorems on the backend model (enqueue and argument evaluation iff level >= logger level at the call; written to sink i iff level >= that sink's level and every filter accepts, independent of the other sinks; the statement's own static or dynamic level travels with it) + level-table obligations extracted from LogLevel.h; differential correspondence with per-sink recording and argument-evaluation counters, level changes interleaved; invariant over all schedules and stale relaxed loads of add_filter / set_log_level_filter against apply_all_filters under a release/acquire view semantics (the proved spinlock model inside), tied by structural extraction and an N-thread atomic-shim harness with real lock contention",
+        text=_SCOPE + "Proved: C16_shouldLog_iff (the frontend test is logger level <= statement level), C16_below_level_nothing (below the level nothing changes but the id counter: no evaluation, no enqueue), C16_at_level_enqueued (the record carries exactly the level passed, static or dynamic; parked, appended, or refused and counted), C16_sinks_exact / C16_sink_iff (the events of a dispatch are exactly one write per accepting sink, in list order, with the statement's own id, level and timestamp), C16_sink_independent (other sinks' levels and filters do not matter), C16_sink_prefix (a throwing sink cuts off only the sinks after it), C16_level_reported, C16_process_is_dispatch; obligations level_order / level_ranks / level_compare_is_rank_compare on the extracted enum. Tie: the H2 harness uses the real LOG_* macros (static levels) and the dynamic-level call with side-effect counters in the arguments, sink level filters and filters, level changes interleaved (also injected inside polls), against the model, plus an oracle on every recorded sink call. Concurrent add_filter against the backend's filter snapshot is covered by a separate stream when present (Filt bundle); with the sequential scheduler it cannot be produced. Concurrency of Sink::add_filter with the backend's apply_all_filters (relaxed _new_filter flag, spinlock, _local_filters copy): C16_filter_lock_exclusive and C16_filter_visibility prove for every number of threads, schedule and stale-load choice that the copy is race-free and that every evaluation consults a filter list containing every filter whose add_filter returned happens-before the evaluation and only filters whose add_filter had begun (negative witnesses: try_lock-and-evaluate-anyway leaks, relaxed lock races, and the run showing why the happens-before premise is needed); tied to the code by extraction of the two functions' structure and by running the real Sink compiled against an N-thread atomic shim under thousands of generated schedules (every atomic access a scheduling point) against the model and a DONE/STARTED oracle.",
+        note=_COMMON_NOTE + " Override pattern formatters per sink are covered by C12. Filter concurrency: DONE is defined by happens-before (queue publication / lock), not wall-clock, because _new_filter is relaxed; there is no remove_filter in the API.", ref="§5 C16, §9.1"),
     "C17": dict(
-        technique="Lean 4 proof: removal invariant on the backend model (a logger is erased only when every queue and buffer is empty; the removal flag is raised only after the erase; sinks destroyed exactly when unreferenced); differential correspondence incl. remove_logger_blocking, re-creation and sink destruction events",
-        text="Machine-checked on the backend model: an invalidated logger is erased only in a state where all queues and transit buffers are empty (so every statement logged through it has been written), the removal flag is raised only after the erase, a sink is destroyed exactly when neither the user nor a live logger references it. Tied to the code by H2 scripts with remove_logger / remove_logger_blocking / create_or_get_logger / dropped user references under ASan, compared with the model (logger counts, sink destructor events, flag waits).",
-        note=_COMMON_NOTE + " Contract assumed: no log call through a logger after remove_logger, no re-creation before the removal completed. Spinlock under weak memory is not modelled here.", ref="§5 C17"),
+        technique="Lean 4 proof: logger/sink life-cycle invariant on the backend model for every schedule incl. frontend steps inside a sink destructor (site 9): an erased logger has no record left in any queue or buffer, the erase rests on the per-logger emptiness check of the current state (negative witness for a hoisted check), a dead sink is unreferenced and never used after its destructor, create/remove contracts; the registries' spinlock proved under the release/acquire view semantics; differential correspondence incl. remove_logger_blocking, re-creation, sink destruction under ASan",
+        text=_SCOPE + "Proved: C17_erased_logger_has_no_record (no record of an erased logger sits in any queue or transit buffer and every parked call's logger is valid and not erased — so statements logged before the removal are all popped, hence dispatched by C03, before the erase), C17_erase_only_when_drained, C17_erase_step_guarded (the erase uses allEmpty of the CURRENT state; with site 9 a logger may get a statement and be removed while an earlier logger's sink is being destroyed), C17_hoisted_check_erases_queued_logger (decide +kernel: with the check hoisted out of the loop that logger is erased with its statement queued), C17_dead_sink_unreferenced (a sink is destroyed only when the user dropped it and no un-erased logger holds it; sinks of un-erased loggers are alive), C17_no_use_after_dtor / C17_alive_sink_no_dtor (no write or flush of a sink after its destructor in the event log), C17_parked_removal_exclusive, C17_create_returns_existing / _fresh_object / _waits_for_erase (idempotent lookup; a name is re-created with new sinks only after the old object was erased), C17_remove_busy_noop; Spin.C17_spinlock_safe (mutual exclusion and visibility of the registries' lock for the extracted memory orders, every schedule and stale-load choice; witnesses for relaxed exchange/unlock). PARTIAL: 'remove_logger_blocking returns only after the removal completed' is proved per clean-up pass (C17_removal_flag_after_erase_partial: a removal flag is raised only for a name whose object was erased in that pass, and the caller waits on the flag, C17_flag_wait); the global statement needs uniqueness of flag numbers across all statements.",
+        note=_COMMON_NOTE + " Contract assumed (enforced identically by generator, harness and model as no-ops): no log call through a logger after remove_logger, no re-creation before the removal completed. File closing by ~FileSink is libc/OS behaviour: the harness uses recording sinks; real file sinks are C14/C15/C07's harnesses.", ref="§5 C17, §3.3 site 9, §9.1"),
     "C20": dict(
-        technique="Lean 4 proof: reclamation invariant (contexts retained after a drain = live threads that logged; the invalid-context counter equals the number of invalid registered contexts modulo 2^bits, bits extracted); differential correspondence with thread churn",
-        text="Machine-checked on the backend model: a context is removed only when its thread exited and its queue and transit buffer are empty; the invalid-context counter is exact as long as it cannot wrap (width extracted from ThreadContextManager.h; 8 bits proved insufficient — finding F13, repaired), so after a drain the retained contexts are exactly those of live threads that logged. Tied to the code by H2 scripts creating and ending threads (incl. dozens between two idle periods) and comparing for_each_thread_context counts with the model, plus a count oracle after the final drain.",
-        note=_COMMON_NOTE + " Shrinking of the unbounded queue is covered by C02's harness.", ref="§5 C20, §7 F13"),
+        technique="Lean 4 proof: reclamation invariants on the backend model for every schedule (invalid-context counter exact modulo 2^bits with the width extracted, a live thread's context never reclaimed, a reclaimed context empty with accepted = popped, after an idle pass the registry is exactly the live threads' contexts up to unreported failure counters); witnesses for a narrow counter (F13); differential correspondence with thread churn; shrink/capacity oracles on the unbounded builds",
+        text=_SCOPE + "Proved: C20_counter (invalidCnt = number of registered invalid contexts mod 2^bits), C20_counter_exact and C20_early_return_iff (below 2^bits registered contexts — obligation 32 <= extracted width; 1- and 2-bit witnesses reproduce F13 in miniature), C20_live_contexts_registered, C20_reclaimed_delivered (an unregistered context is empty and everything it accepted was popped: pending statements of an exited thread are delivered before the reclaim), C20_idle_poll_reclaims (after an idle pass that found everything empty every registered context is valid or holds a not yet reported failure counter — the F24 repair keeps those one more pass), C20_idle_poll_retains_live and C20_quiet_idle_poll_retains_live (idle pass with nothing injected: the registry is a permutation of the live threads' contexts, counts agree — 'contexts retained = live threads that logged'), for any number of start/exit cycles. Shrinking of the unbounded queue (capacity drops, nothing lost or reordered) is proved on the queue model in C02 (C02_shrink_iff, chain safety) and checked here by the capacity/shrink oracles on the two unbounded H2 builds; the backend model itself carries the bounded queue.",
+        note=_COMMON_NOTE, ref="§5 C20, §7 F13 F24, §9.1"),
 }
 
 THEOREMS = {p: [] for p in PROPS}
@@ -109,6 +116,42 @@ def run_script(hbin, name, lines, workdir):
     return name, lines, rc, out
 
 
+def variant_of_case(case):
+    m = re.match(r"(?:corpus_.*_)?v(\d)", case) or re.search(r"_v(\d)$", case)
+    return int(m.group(1)) if m else 0
+
+
+def shrink_script(hbin, lines, still_fails, budget=160):
+    """delta debugging (ddmin) on the operations after `start`: the smallest script found within the budget on which
+    `still_fails(rc, out)` holds. Removing operations is always legal: what the contract forbids is a no-op in harness and model."""
+    try:
+        k0 = lines.index("start") + 1
+    except ValueError:
+        return lines
+    head, body = lines[:k0], lines[k0:]
+    runs = [0]
+
+    def fails(b):
+        runs[0] += 1
+        _, _, rc, out = run_script(hbin, "shrink_%d" % os.getpid(), head + b, vlib.CACHE)
+        return still_fails(rc, out)
+
+    n = 2
+    while len(body) >= 2 and runs[0] < budget:
+        chunk = max(1, len(body) // n)
+        reduced = False
+        for i in range(0, len(body), chunk):
+            cand = body[:i] + body[i + chunk:]
+            if cand and runs[0] < budget and fails(cand):
+                body, n, reduced = cand, max(n - 1, 2), True
+                break
+        if not reduced:
+            if chunk == 1:
+                break
+            n = min(n * 2, len(body))
+    return head + body
+
+
 def classify(impl, model):
     """which properties a differing observation line speaks about"""
     it, mt = set(impl.split()), set(model.split())
@@ -150,7 +193,9 @@ def collect(ck, tier, ex):
                         vlib.tree_hash([os.path.join(vlib.VERIF, "tools", "backend_gen.py"), os.path.join(vlib.VERIF, "corpus"), vlib.DRIVER])).encode()).hexdigest()[:16]
     cpath = os.path.join(vlib.CACHE, "backend_%s.json" % key)
     if os.path.exists(cpath):
-        return json.load(open(cpath))
+        r = json.load(open(cpath))
+        r["bins"] = {str(v): b for v, b in bins.items()}
+        return r
     n_random = 60 if tier == "quick" else 3000
     nops = 60 if tier == "quick" else 120
     workdir = os.path.join(vlib.CACHE, "h2work_%d" % os.getpid())
@@ -217,6 +262,7 @@ def collect(ck, tier, ex):
         pass
     with open(cpath, "w") as f:
         json.dump(res, f)
+    res["bins"] = {str(v): b for v, b in bins.items()}
     # keep the cache small
     olds = sorted((os.path.getmtime(os.path.join(vlib.CACHE, f)), f) for f in os.listdir(vlib.CACHE) if f.startswith("backend_") and f.endswith(".json"))
     for _, f in olds[:-6]:
@@ -344,6 +390,7 @@ def run(prop, tier):
         ck.extracted = vlib.run_extract()
         vlib.lake_build(["driver"])
     ex = ck.extracted
+    tier_shrinks = os.environ.get("VERIF_NO_SHRINK") is None
     for b in ps["broken"]:
         ck.log("PROOF SIDE BROKEN: " + b)
     res = collect(ck, tier, ex)
@@ -418,11 +465,25 @@ def run(prop, tier):
     mine_mm = [m for m in res["mismatches"] if prop in m["props"]]
     if res["aborts"]:
         a = res["aborts"][0]
-        ck.violation("abort", "# harness aborted rc=%s (sanitizer / assertion / crash in the real code)\n%s\n# ---- output tail ----\n# %s\n" % (
+        hb = res.get("bins", {}).get(str(variant_of_case(a["case"])))
+        if hb and tier_shrinks:
+            a = dict(a, script=shrink_script(hb, a["script"], lambda rc, out: rc == a["rc"]))
+        ck.violation("abort", "# harness aborted rc=%s (sanitizer / assertion / crash in the real code); script minimised by delta debugging\n%s\n# ---- output tail ----\n# %s\n" % (
             a["rc"], "\n".join(a["script"]), a["tail"].replace("\n", "\n# ")),
             "the real code aborted under the scheduler harness in case %s (rc=%s): %s" % (a["case"], a["rc"], a["tail"].strip().split("\n")[-1][:200]))
     if mine_or:
         o = mine_or[0]
+        hb = res.get("bins", {}).get(str(variant_of_case(o["case"])))
+        sc = res.get("scripts", {}).get(o["case"])
+        if hb and sc and tier_shrinks:
+            small = shrink_script(hb, sc, lambda rc, out: rc == 0 and any(p == prop for p, _ in bg.oracles(out.split("\n"))))
+            if len(small) < len(sc):
+                _, _, _, out_small = run_script(hb, "shrunk_%d" % os.getpid(), small, vlib.CACHE)
+                msgs = [m for p, m in bg.oracles(out_small.split("\n")) if p == prop]
+                if msgs:
+                    res.setdefault("scripts", {})[o["case"]] = small
+                    res.setdefault("outputs", {})[o["case"]] = out_small
+                    o = dict(o, msg=msgs[0] + " [script minimised by delta debugging: %d -> %d lines]" % (len(sc), len(small)))
         ck.violation("oracle", replay_text(o["case"], "property oracle on the real code: " + o["msg"]),
                      "property fails on the real code: %s (case %s; %d oracle hits for this property)" % (o["msg"], o["case"], len(mine_or)))
     elif mine_mm:
